@@ -1,6 +1,6 @@
 SPECIFICATION Spec
 CONSTANTS
-  Vals <- ValsAuto
+  Vals <- ValsAuto4
   Ops <- OpsAuto
   Tol = 0
   MaxRows = 4
